@@ -36,7 +36,7 @@ CLAIMED = {
         category='proof',
         text='GKF parser automaton under contract, loop-free hence complete: for all 30 states x 20 tags startElement/endElement '
              'keep the state in range, the error state is absorbing, ENTERING the error state always records an error code and '
-             'the current line (located diagnostic), the target state is the one the schema prescribes; CoreParser::error: first '
+             'the current line (located diagnostic), the target state is the one the schema prescribes; numeric literal recognisers equal their grammar for all strings up to 8 bytes and gate atof/atoi; CoreParser::error: first '
              'error wins; character data handler stays inside its buffer. expat, the attribute handlers process_* (assumed '
              'contracts, syntactically guarded) and sanitizer-cleanliness of the whole process are not decided.',
         design_ref='DESIGN.md 5 (C11)',
@@ -85,6 +85,27 @@ CLAIMED = {
         design_ref='DESIGN.md 5 (C15)',
         note=TRUST + '; libc memcpy enters through an assumed contract (regions valid and disjoint, contents copied at a ghost index)',
         technique='contract-based deductive verification (CBMC dfcc contracts; z3 integer lemmas on the extracted index expressions)'),
+    'C12': dict(
+        category='proof',
+        text='str2xml under contract (loop contract, input length up to 1e9): the output contains no raw < or >, every & starts one of the five '
+             'predefined entities, and each input byte contributes a segment that XML-unescapes to exactly that byte (so the reader gets the '
+             'description back); Utf8::length never reads at or beyond length() and counts code points of well-formed UTF-8. Bounded end-to-end '
+             'round trip for all strings of <= 4 bytes (quick) / 6 bytes (thorough). That EVERY user string passes through str2xml (point ids are '
+             'streamed raw), the result reader round trip, and agreement with the HTML/text/Octave outputs are not decided.',
+        design_ref='DESIGN.md 5 (C12)',
+        note=TRUST + '; std::string is lowered to a length-carrying byte buffer whose append model asserts the 6n output bound',
+        technique='contract-based deductive verification (CBMC dfcc function + loop contracts on the extracted escaping loop)'),
+    'C18': dict(
+        category='proof',
+        text='Literal recognisers (real intfloat.h through the C++ front end): IsFloat/IsInteger equal the reference automata of the documented '
+             'grammars for ALL byte strings up to 8 (quick) / 12 (thorough) bytes, never read outside the buffer, and every <cctype> argument is in '
+             'its ISO domain; gon2deg/rad2dms/dms2rad: field ranges (minutes 0..59, seconds < 60 also AFTER rounding to the printed precision, carry '
+             'into minutes/degrees), results in the half-open circle; bearing_distance: d >= 0, coincident points give (0,0) without calling atan2, '
+             'bearing in [0, 2pi) given an assumed atan2 range. Ellipsoid round trips, deg2gon string parsing (istringstream) and the bearing '
+             'antisymmetry itself are not decided.',
+        design_ref='DESIGN.md 5 (C18)',
+        note=TRUST + '; assumed contracts: sqrt (>= 0, 0 iff 0), atan2 in [-pi, pi], ostream<< rounds half-even at the set precision; isspace/isdigit are the C-locale ASCII classes',
+        technique='contract-based deductive verification (CBMC: C++ front end on the real header for all strings up to L; dfcc contracts on extracted angle code)'),
 }
 
 NA = {
